@@ -2,6 +2,7 @@ import Victron.Model.Proto
 import Victron.Proofs.Frame
 import Victron.Proofs.Scan
 import Victron.Proofs.Loop
+import Victron.Proofs.Stream
 import Victron.Props.C09
 /-
   C05 — Device-reported errors are surfaced, typed and not retried.
@@ -56,6 +57,28 @@ theorem accessors_surface_error (σ : Vd) (idles : List Bool) (addr : Nat) (e : 
   simp only
   rw [h]
   exact ⟨rfl, rfl, rfl⟩
+
+/-- **Against a whole device stream** (fault-free port): behind at most seven
+    wasted units — rejected frames and silences, `Proofs/Stream.lean` — a valid response for `addr` with flag
+    1, 2 or 4 ends the call with the typed error, one frame written per wasted unit plus one: the error
+    response itself is never retried, whatever follows it. -/
+theorem stream_device_error (ws : List (Bool × Waste)) (i : Bool) (post idles : List Bool) (σ : Vd) (addr : Nat) (haddr : addr < 65536)
+    (flag : Nat) (hf : flag = 1 ∨ flag = 2 ∨ flag = 4) (payload : Bytes) (hpl : IsBytes payload)
+    (hid : idles8 idles = ws.map (·.1) ++ i :: post) (hws : ∀ w ∈ ws, w.2.Ok addr)
+    (segs : List (Bytes × Bytes)) (noise rest : Bytes)
+    (hsegs : ∀ s ∈ segs, 58 ∉ s.1 ∧ 10 ∉ s.2) (hnoise : 58 ∉ noise) (hc : σ.port.Clean)
+    (hfeed : Feeds σ.port.reply σ.port.nW σ.pending ws i
+      ((segs.map asyncSeg).flatten ++ noise ++ frameOf (getResponseBody addr flag payload) ++ rest)) :
+    ∃ σ' e, flagError flag = some e ∧ e ≠ .other ∧ σ.veCommandGet idles addr = (σ', .err e) ∧
+      σ'.port.nW = σ.port.nW + ws.length + 1 ∧ σ'.pending = rest := by
+  obtain ⟨σ', h, hn, hp⟩ := Vd.veCommandGetL_streamF ws i σ addr haddr flag (by omega) payload hpl hws segs noise rest
+    hsegs hnoise hc hfeed post
+  unfold Vd.veCommandGet
+  rw [hid, h]
+  rcases hf with rfl | rfl | rfl
+  · exact ⟨σ', .unknownId, rfl, by simp, rfl, hn, hp⟩
+  · exact ⟨σ', .notSupported, rfl, by simp, rfl, hn, hp⟩
+  · exact ⟨σ', .parameterError, rfl, by simp, rfl, hn, hp⟩
 
 /-- **API wrapping.** Every register reader of the API returns a device error of the same kind (still
     matchable) together with the register's name. -/
